@@ -88,7 +88,7 @@ def schedules(v, refs, quick, clause="Inv_C16_Safe", pairs=None):
     """two live processes, every pair of pre-emption points (context bound 2)"""
     from bind import cache_harness as ch
     n = 0
-    pairs = pairs or ([("A", "A"), ("A", "B"), ("B", "Bp")] if not quick else [("A", "B"), ("B", "Bp")])
+    pairs = pairs or ([("A", "A"), ("A", "B"), ("B", "Bp"), ("H", "Hp")] if not quick else [("A", "B"), ("B", "Bp"), ("H", "Hp")])
     for d1, d2 in pairs:
         for bytecode in (False, True):
             for k1 in range(0, 16, 1 if not quick else 2):
